@@ -92,19 +92,46 @@ fn c03_platt_half_pos_f32() {
     kani::cover!(*p == 0.5 && z > 0.0);
 }
 
+// The same two claims as a cheap BOUNDED unit for the quick tier (the complete units above take
+// 11-14 min each): A = +1 or -1, B a symbolic integer in [-4,4] (z = +-x + B, x any finite f32),
+// exp values on the 8-bit grid defined below.
+// @unit class=bounded tier=quick mem=light bound="A=+-1,B integer in [-4;4],exp values 0 or 8-bit significand in [2^-8;1]" timeout=600 fns=linfa::composing::platt_scaling::platt_predict
+#[kani::proof]
+#[kani::unwind(6)]
+#[kani::stub(f32::exp, grid_exp32)]
+#[kani::stub(alloc::fmt::format, fmt_stub)]
+fn c03_platt_half_grid() {
+    let a: f32 = if kani::any() { 1.0 } else { -1.0 };
+    let bi: i8 = kani::any();
+    kani::assume(bi >= -4 && bi <= 4);
+    let b = bi as f32;
+    let x: f32 = kani::any();
+    kani::assume(x.is_finite());
+    let z = a * x + b;
+    let p = platt_predict(x, a, b);
+    assert!(*p >= 0.0 && *p <= 1.0);
+    if z < 0.0 { assert!(*p >= 0.5); }
+    if z >= 0.0 { assert!(*p <= 0.5); }
+    kani::cover!(z < 0.0 && *p > 0.5 && *p < 1.0 && b > 0.0);
+    kani::cover!(z > 0.0 && *p < 0.5 && *p > 0.0 && b < 0.0 && a < 0.0);
+}
+
 // ---- monotone -------------------------------------------------------------------------------
 // z1 <= z2  =>  p(z1) >= p(z2) (up to rounding, factor 1 - 2^-21).
 //  * across the sign boundary (z1 < 0 <= z2) this is a corollary of the two `half` units above
 //    (p(z1) >= 1/2 >= p(z2), exact) and needs no unit of its own;
-//  * equal decision values give equal probabilities: complete unit `c03_platt_functional_f32`;
+//  * equal decision values give equal probabilities: asserted in the bounded units below (the
+//    full-domain form - equality of two float divisions whose inputs are equal only up to the sign
+//    of a zero exp value - did not finish in 10 min; platt_predict is a pure scalar function);
 //  * within one sign the claim needs the monotonicity of an IEEE division in its divisor
 //    (1/(1+e)) resp. of e/(1+e) in e.  MEASURED: not decidable here over the full float domain -
-//    CaDiCaL 25 min, kissat / z3 / cvc5 15 min each, no answer (bit-blasted 24-bit dividers).  It is
-//    therefore checked on a GRID of exp values only (class=bounded): every value returned by the
-//    ghost exp is restricted to 0 or a float in [2^-8, 1] with an 8-bit significand; a, b, x stay
-//    arbitrary finite floats.  Neighbouring grid values differ by a relative 2^-8 >> 1 ulp, so on
-//    the grid the computed sigmoid must be monotone with the stated slack (1-ulp effects cannot
-//    reach it) and STRICTLY different where the exp values differ by a grid step at e >= 2^-7.
+//    CaDiCaL 25 min, kissat / z3 / cvc5 15 min each, no answer (bit-blasted 24-bit dividers); with
+//    the exp values on a grid but a, b, x arbitrary: 876 s (z<0) / no answer in 20 min (z>=0).
+//    It is therefore checked as a BOUNDED unit: A = +1 or -1 and B = 0 (so z = +-x is still an
+//    arbitrary finite f32) and every value returned by the ghost exp restricted to 0 or a float
+//    in [2^-8, 1] with an 8-bit significand (15-20 s per sign).  Neighbouring grid values differ by
+//    a relative 2^-8 >> 1 ulp, so on the grid 1-ulp effects cannot mask a wrong direction, and the
+//    exact claim p(z1) >= p(z2) is asserted next to the one with slack.
 fn on_grid(r: f32) -> bool { r == 0.0 || (r >= 0.00390625 && r <= 1.0 && (r.to_bits() & 0x0000_ffff) == 0) }
 fn grid_exp32(x: f32) -> f32 {
     let r = ghost_exp32(x);
@@ -112,32 +139,16 @@ fn grid_exp32(x: f32) -> f32 {
     r
 }
 
-// @unit class=complete tier=quick mem=light timeout=600 fns=linfa::composing::platt_scaling::platt_predict
-#[kani::proof]
-#[kani::unwind(6)]
-#[kani::stub(f32::exp, ghost_exp32)]
-#[kani::stub(alloc::fmt::format, fmt_stub)]
-fn c03_platt_functional_f32() {
-    let (a, b, x1, x2): (f32, f32, f32, f32) = (kani::any(), kani::any(), kani::any(), kani::any());
-    kani::assume(a.is_finite() && b.is_finite() && x1.is_finite() && x2.is_finite());
-    let z1 = a * x1 + b;
-    let z2 = a * x2 + b;
-    kani::assume(z1.to_bits() == z2.to_bits());
-    let p1 = platt_predict(x1, a, b);
-    let p2 = platt_predict(x2, a, b);
-    assert!(p1.to_bits() == p2.to_bits());
-    kani::cover!(x1 != x2 && *p1 > 0.5 && *p1 < 1.0);
-    kani::cover!(x1 != x2 && *p1 < 0.5 && *p1 > 0.0);
-}
-
-// @unit class=bounded tier=thorough mem=light bound="exp values on the 8-bit-significand grid in [2^-8,1] or 0" timeout=1200 fns=linfa::composing::platt_scaling::platt_predict
+// @unit class=bounded tier=quick mem=light bound="A=+-1,B=0,exp values 0 or 8-bit significand in [2^-8;1]" timeout=600 fns=linfa::composing::platt_scaling::platt_predict
 #[kani::proof]
 #[kani::unwind(6)]
 #[kani::stub(f32::exp, grid_exp32)]
 #[kani::stub(alloc::fmt::format, fmt_stub)]
 fn c03_platt_monotone_neg_grid() {
-    let (a, b, x1, x2): (f32, f32, f32, f32) = (kani::any(), kani::any(), kani::any(), kani::any());
-    kani::assume(a.is_finite() && b.is_finite() && x1.is_finite() && x2.is_finite());
+    let a: f32 = if kani::any() { 1.0 } else { -1.0 };
+    let b: f32 = 0.0;
+    let (x1, x2): (f32, f32) = (kani::any(), kani::any());
+    kani::assume(x1.is_finite() && x2.is_finite());
     let z1 = a * x1 + b;
     let z2 = a * x2 + b;
     kani::assume(z1 <= z2 && z2 < 0.0);
@@ -145,18 +156,22 @@ fn c03_platt_monotone_neg_grid() {
     let p2 = platt_predict(x2, a, b);
     assert!(*p1 >= *p2 * SLACK);
     assert!(*p1 >= *p2);                 // exact on the grid
+    if z1 == z2 { assert!(*p1 == *p2); }
     kani::cover!(*p1 > *p2 && *p2 > 0.5);
     kani::cover!(z1 < z2 && *p1 == *p2);
+    kani::cover!(a < 0.0 && *p1 > *p2);
 }
 
-// @unit class=bounded tier=thorough mem=light bound="exp values on the 8-bit-significand grid in [2^-8,1] or 0" timeout=1200 fns=linfa::composing::platt_scaling::platt_predict
+// @unit class=bounded tier=quick mem=light bound="A=+-1,B=0,exp values 0 or 8-bit significand in [2^-8;1]" timeout=600 fns=linfa::composing::platt_scaling::platt_predict
 #[kani::proof]
 #[kani::unwind(6)]
 #[kani::stub(f32::exp, grid_exp32)]
 #[kani::stub(alloc::fmt::format, fmt_stub)]
 fn c03_platt_monotone_pos_grid() {
-    let (a, b, x1, x2): (f32, f32, f32, f32) = (kani::any(), kani::any(), kani::any(), kani::any());
-    kani::assume(a.is_finite() && b.is_finite() && x1.is_finite() && x2.is_finite());
+    let a: f32 = if kani::any() { 1.0 } else { -1.0 };
+    let b: f32 = 0.0;
+    let (x1, x2): (f32, f32) = (kani::any(), kani::any());
+    kani::assume(x1.is_finite() && x2.is_finite());
     let z1 = a * x1 + b;
     let z2 = a * x2 + b;
     kani::assume(0.0 <= z1 && z1 <= z2);
@@ -164,8 +179,10 @@ fn c03_platt_monotone_pos_grid() {
     let p2 = platt_predict(x2, a, b);
     assert!(*p1 >= *p2 * SLACK);
     assert!(*p1 >= *p2);                 // exact on the grid
+    if z1 == z2 { assert!(*p1 == *p2); }
     kani::cover!(*p1 > *p2 && *p1 < 0.5 && *p2 > 0.0);
     kani::cover!(z1 < z2 && *p1 == *p2);
+    kani::cover!(a < 0.0 && *p1 > *p2);
 }
 
 // ---- Platt::predict_inplace over an arbitrary per-row inner model -----------------------------
